@@ -23,6 +23,8 @@ pub mod c09;
 pub mod c11;
 #[cfg(all(kani, feature = "c15"))]
 pub mod c15;
+#[cfg(all(kani, feature = "c17"))]
+pub mod c17;
 #[cfg(all(kani, feature = "c18"))]
 pub mod c18;
 #[cfg(all(kani, feature = "c12"))]
